@@ -416,7 +416,7 @@ func propC16(c *Ctx, r *Report) {
 	}
 
 	// Payouts() shape
-	r.rule("C16/payouts-table", 3, "full payment below the bank, proportional share otherwise")
+	r.rule("C16/payouts-table", 4, "full payment below the bank, proportional share otherwise")
 	pf := c.fn("conversions.ConversionSupplySet.Payouts")
 	for _, rel := range []int{-1, 0, 1} {
 		rel := rel
@@ -433,6 +433,22 @@ func propC16(c *Ctx, r *Report) {
 		r.Scen++
 		prop := t.Live("PayoutBig")
 		r.check(prop == (rel >= 0), "C16/payouts-table", fmt.Sprintf("total requested %s bank", map[int]string{-1: "<", 0: "=", 1: ">"}[rel]), c.pos(pf.Pos()), map[bool]string{true: "proportional shares", false: "requests paid in full"}[rel >= 0], fmt.Sprintf("proportional path %s", liveStr(prop)))
+	}
+	// a total beyond 64 bits is never "below the bank", whatever its low 64 bits compare to
+	{
+		sc := &Scenario{Lens: map[string]AVal{"conversions.ConversionSupplySet.ConversionRequests": cInt(3)},
+			Calls: map[string]AVal{"math/big.Int.IsUint64": cBool(false), "math/big.Int.Uint64": sym("total")},
+			Paths: map[string]AVal{"conversions.ConversionSupplySet.Bank": sym("bank")},
+			Order: func(x, y AVal) (int, bool) {
+				if x.K == ASym && y.K == ASym && x.Sym == "total" && y.Sym == "bank" {
+					return -1, true
+				}
+				return 0, false
+			}, MaxDepth: 0}
+		t := newSCCP(c, sc).analyse(pf, nil)
+		r.Scen++
+		prop := t.Live("PayoutBig")
+		r.check(prop, "C16/payouts-table", "total requested beyond 2^64, low 64 bits < bank", c.pos(pf.Pos()), "proportional shares", fmt.Sprintf("proportional path %s: the total is compared through its truncated low 64 bits without IsUint64()", liveStr(prop)))
 	}
 	rulePayoutEntryPerRequest(c, r, "C16/payouts-table")
 	pb := c.fn("conversions.PayoutBig")
